@@ -1011,6 +1011,9 @@ func recoverDrive(r *rand.Rand, tier string, tr *trace.Buf) {
 					seed[i] = byte(0xff * (1 - q/2))
 				}
 			}
+			if q == 4 { // leading zero bytes, the rest arbitrary (a seed is 48 bytes, not a number)
+				seed[0], seed[1] = 0, 0
+			}
 			d, err = dilithium.NewDilithiumFromSeed(seed)
 		}
 		if err != nil {
